@@ -47,6 +47,9 @@ pub const HOSTS: &[(&str, &str, &str)] = &[
     ("E(?<=(?>E))", "", ""),
     ("(?=(?:E1)(?:E2))E", "", ""),
     ("(?>(?:E1)(?:E2))(?<=(?:E1)(?:E2))", "", ""),
+    // an occurrence directly preceded by another one (the look-behind reads text in front of the match, and in
+    // find_iter in front of the search start)
+    ("(?<=E)E", "(?<=", ""), // filled specially
 ];
 
 const X_HOST: usize = 11;
@@ -62,6 +65,7 @@ fn host_pattern_s(host: usize, s: &str) -> String {
         "E(?<=(?<=E1)E2)" => format!("{}(?<=(?<={}){})", e, e1, e2),
         "(?=E1(?=E2))E" => format!("(?={}(?={})){}", e1, e2, e),
         "E(?<=(?>E))" => format!("{}(?<=(?>{}))", e, e),
+        "(?<=E)E" => format!("(?<={}){}", e, e),
         "(?=(?:E1)(?:E2))E" => format!("(?=(?:{})(?:{})){}", e1, e2, e),
         "(?>(?:E1)(?:E2))(?<=(?:E1)(?:E2))" => format!("(?>(?:{})(?:{}))(?<=(?:{})(?:{}))", e1, e2, e1, e2),
         _ => host_pattern(host, &e),
@@ -158,13 +162,18 @@ pub fn check_string(s: &str, hosts: &[usize]) -> Result<Info, (usize, String, Fa
             Built::Panic(p) => return Err((h, String::new(), Fail::new("panic", "Ok", format!("PANIC({}) for pattern {:?}", p, pat)))),
         };
         for t in &texts {
-            let want = t.find(s).map(|i| (i, i + s.len()));
+            let preceded = HOSTS[h].0 == "(?<=E)E";
+            let want = if preceded {
+                t.char_indices().map(|(i, _)| i).chain(std::iter::once(t.len())).find(|&i| t[i..].starts_with(s) && t[..i].ends_with(s)).map(|i| (i, i + s.len()))
+            } else {
+                t.find(s).map(|i| (i, i + s.len()))
+            };
             let got = engine::find_from_pos(&re, t, 0);
             if got != engine::Out::Val(want) {
                 return Err((h, t.clone(), Fail::new("find", format!("{:?} (str::find)", want), format!("{} with pattern {:?}", got.show(), pat))));
             }
             // every later occurrence as well (searches that start behind the beginning of the text)
-            if !s.is_empty() {
+            if !s.is_empty() && !preceded {
                 let wants: Vec<(usize, usize)> = t.match_indices(s).map(|(i, _)| (i, i + s.len())).collect();
                 let gots = engine::find_iter_spans(&re, t, t.len() + 3);
                 if gots != engine::Out::Val((wants.clone(), None)) {
@@ -296,7 +305,7 @@ pub fn run(ctx: &RunCtx) -> Outcome {
                 return st;
             }
             // the longest strings go through three hosts only (bare, VM-forcing, look-behind)
-            let hosts: &[usize] = if s.chars().count() >= 3 && ctx.quick() || s.chars().count() >= 4 { &[0, 1, 6, 9, 11, 13, 15, 16, 18, 20, 22] } else { &all_hosts };
+            let hosts: &[usize] = if s.chars().count() >= 3 && ctx.quick() || s.chars().count() >= 4 { &[0, 1, 6, 9, 11, 13, 15, 16, 18, 20, 22, 23] } else { &all_hosts };
             st.evaluations += (hosts.len() * (3 + 3 * s.chars().count() + 2)) as u64;
             st.patterns += 1;
             match check_string(s, hosts) {
